@@ -79,8 +79,8 @@ func vf7Kinds() []*vf7Kind {
 		{"bytes", byt, "", [2]any{[]byte{1, 2, 3}, []byte{0}}, nil, "", []arrow.DataType{utf8, arrow.BinaryTypes.LargeBinary}, false},
 		{"ptr-string", reflect.PointerTo(str), "", [2]any{"hello", ""}, "dflt", "dflt", []arrow.DataType{lutf8, a64}, true},
 		{"ptr-int64", reflect.PointerTo(i64), "", [2]any{int64(7), int64(0)}, int64(42), "42", []arrow.DataType{a32, utf8}, false},
-		{"list-int64", li, "", [2]any{[]int64{1, 2}, []int64{-5}}, nil, "", []arrow.DataType{arrow.ListOf(a32), a64}, true},
-		{"map", mp, "", [2]any{map[string]int64{"a": 1, "b": 2}, map[string]int64{"z": -1}}, nil, "", []arrow.DataType{arrow.MapOf(utf8, a32), arrow.ListOf(a64)}, false},
+		{"list-int64", li, "", [2]any{[]int64{1, 2}, []int64{-5}}, nil, "", []arrow.DataType{arrow.ListOfNonNullable(a64), arrow.ListOf(a32), a64}, true},
+		{"map", mp, "", [2]any{map[string]int64{"a": 1, "b": 2}, map[string]int64{"z": -1}}, nil, "", []arrow.DataType{vf7MapNonNullItems(utf8, a64), arrow.MapOf(utf8, a32), arrow.ListOf(a64)}, false},
 		{"timestamp", timeType, "timestamp", [2]any{t0, t1}, nil, "", []arrow.DataType{&arrow.TimestampType{Unit: arrow.Microsecond, TimeZone: "UTC"}, &arrow.TimestampType{Unit: arrow.Millisecond}, a64}, false},
 		{"enum", str, "enum", [2]any{"ACTIVE", "x"}, "dflt", "dflt", []arrow.DataType{utf8, &arrow.DictionaryType{IndexType: a32, ValueType: utf8}}, true},
 	}
@@ -213,6 +213,45 @@ func vf7Batch(cols []vf7Col) arrow.RecordBatch {
 	return array.NewRecordBatch(arrow.NewSchema(fs, nil), arrs, 1)
 }
 
+func vf7MapNonNullItems(k, v arrow.DataType) arrow.DataType {
+	mt := arrow.MapOf(k, v)
+	mt.SetItemNullable(false)
+	return mt
+}
+
+// vf7TypeEqual compares two column types structurally, child fields included
+// (a list whose items may not be null is another type than one whose items may).
+func vf7TypeEqual(a, b arrow.DataType) bool {
+	if a.ID() != b.ID() {
+		return false
+	}
+	switch x := a.(type) {
+	case *arrow.ListType:
+		y := b.(*arrow.ListType)
+		return x.ElemField().Nullable == y.ElemField().Nullable && vf7TypeEqual(x.Elem(), y.Elem())
+	case *arrow.MapType:
+		y := b.(*arrow.MapType)
+		return x.ItemField().Nullable == y.ItemField().Nullable && x.KeysSorted == y.KeysSorted &&
+			vf7TypeEqual(x.KeyType(), y.KeyType()) && vf7TypeEqual(x.ItemType(), y.ItemType())
+	case *arrow.StructType:
+		y := b.(*arrow.StructType)
+		if x.NumFields() != y.NumFields() {
+			return false
+		}
+		for i := 0; i < x.NumFields(); i++ {
+			fx, fy := x.Field(i), y.Field(i)
+			if fx.Name != fy.Name || fx.Nullable != fy.Nullable || !vf7TypeEqual(fx.Type, fy.Type) {
+				return false
+			}
+		}
+		return true
+	case *arrow.DictionaryType:
+		y := b.(*arrow.DictionaryType)
+		return x.Ordered == y.Ordered && vf7TypeEqual(x.IndexType, y.IndexType) && vf7TypeEqual(x.ValueType, y.ValueType)
+	}
+	return arrow.TypeEqual(a, b)
+}
+
 // vf7SchemaEqual is the statement's notion of equality, written out by hand:
 // same field order, names, types and nullability.
 func vf7SchemaEqual(a, b *arrow.Schema) bool {
@@ -221,7 +260,7 @@ func vf7SchemaEqual(a, b *arrow.Schema) bool {
 	}
 	for i := 0; i < a.NumFields(); i++ {
 		fa, fb := a.Field(i), b.Field(i)
-		if fa.Name != fb.Name || fa.Nullable != fb.Nullable || !arrow.TypeEqual(fa.Type, fb.Type) {
+		if fa.Name != fb.Name || fa.Nullable != fb.Nullable || !vf7TypeEqual(fa.Type, fb.Type) {
 			return false
 		}
 	}
@@ -341,6 +380,38 @@ func vf7Shapes(kinds []*vf7Kind, declared *arrow.Schema) []vf7Shape {
 		c = base(0)
 		c[i].F.Name = strings.ToUpper(c[i].F.Name)
 		shapes = append(shapes, vf7Shape{Name: fmt.Sprintf("rename-case@%d", i), Class: "renamed", Col: i, Cols: c})
+	}
+	// Names that contain the punctuation textual schema renderings use.
+	for i := range kinds {
+		for _, suffix := range []string{"{", ";", " "} {
+			c := base(0)
+			c[i].F.Name += suffix
+			shapes = append(shapes, vf7Shape{Name: fmt.Sprintf("rename-punct@%d%q", i, suffix), Class: "renamed", Col: i, Cols: c})
+		}
+	}
+	// Narrowed batches that are textually indistinguishable from the declared
+	// schema: two adjacent columns merged into one whose NAME spells out the
+	// first column and the head of the second the way Arrow's own canonical
+	// rendering (Schema.Fingerprint) would, so that the rendering of the
+	// narrowed schema coincides with the declared one although the structure
+	// (column count, names) differs. Only kept when the renderings really coincide.
+	for i := 0; i+1 < n; i++ {
+		for _, flag := range []string{"N", "n", "T", "F", "1", "0"} {
+			b := base(0)
+			merged := vf7Col{F: arrow.Field{
+				Name:     b[i].F.Name + "{" + b[i].F.Type.Fingerprint() + "};F" + flag + b[i+1].F.Name,
+				Type:     b[i+1].F.Type,
+				Nullable: b[i].F.Nullable,
+			}, V: b[i+1].V}
+			c := append(append(append([]vf7Col{}, b[:i]...), merged), b[i+2:]...)
+			fs := make([]arrow.Field, len(c))
+			for j := range c {
+				fs[j] = c[j].F
+			}
+			if arrow.NewSchema(fs, nil).Fingerprint() == declared.Fingerprint() {
+				shapes = append(shapes, vf7Shape{Name: fmt.Sprintf("merge@%d+%d", i, i+1), Class: "narrowed-aliased-name", Col: i, Cols: c})
+			}
+		}
 	}
 	return shapes
 }
@@ -705,7 +776,9 @@ func TestVerif_C07(t *testing.T) {
 		for _, sh := range vf7Shapes(ks, declared) {
 			switch sh.Class {
 			case "equal", "null", "null-in-non-nullable", "permuted", "dropped", "renamed":
-				shapes = append(shapes, sh)
+				if !strings.HasPrefix(sh.Name, "rename-punct") {
+					shapes = append(shapes, sh)
+				}
 			}
 		}
 		sh := shapes[x.Choose(len(shapes), "shape")]
